@@ -43,8 +43,8 @@ CONFIGS = [
 
 
 def bounds(tier):
-    return {'V': 6 if tier == 'quick' else 9,
-            'S': 5 if tier == 'quick' else 9}
+    return {'V': 6 if tier == 'quick' else 8,
+            'S': 5 if tier == 'quick' else 7}
 
 
 class _Clock:
@@ -137,7 +137,7 @@ class _Quiet:
         return 0
 
 
-def make_run(st, sc, ms, oracle, tier, clock=False):
+def make_run(st, sc, ms, oracle, tier, clock=False, pin=()):
     b = bounds(tier)
     V = len(SC.KEYS[sc]) if oracle == 'req' else b['V']
     S = b['S'] + (1 if clock else 0)
@@ -150,7 +150,8 @@ def make_run(st, sc, ms, oracle, tier, clock=False):
     def run():
         from vlib.engine import explore_choices
         return explore_choices(once, V + S,
-                               budget_s=170 if tier == 'quick' else 850)
+                               budget_s=170 if tier == 'quick' else 850,
+                               pin=pin)
     return run
 
 
@@ -264,11 +265,17 @@ def partitions(tier):
                           'bounds': {'strategy': st, 'script': sc,
                                      'mutators': ms, 'oracle': oracle,
                                      'clock': 'perturbed', **bounds(tier)}})
+    import itertools
+    pins = [()] if tier == 'quick' else list(
+        itertools.product((0, 1), repeat=3))
     for (st, sc, ms) in CONFIGS:
         for oracle in ('hash0', 'hash1', 'req'):
-            parts.append({'name': f'{st}_{sc}_{ms}_{oracle}',
+          for pin in pins:
+            sfx = ('_p' + ''.join(map(str, pin))) if pin else ''
+            parts.append({'name': f'{st}_{sc}_{ms}_{oracle}{sfx}',
                           'kind': 'choices',
-                          'run': make_run(st, sc, ms, oracle, tier),
+                          'run': make_run(st, sc, ms, oracle, tier, False,
+                                          pin),
                           'budget_s': 170 if tier == 'quick' else 850,
                           'bounds': {'strategy': st, 'script': sc,
                                      'mutators': ms, 'oracle': oracle,
@@ -290,7 +297,7 @@ def replay(part, cex):
     clock = part.startswith('clock_')
     if clock:
         part = part[6:]
-    st, sc, ms, oracle = part.split('_')
+    st, sc, ms, oracle = part.split('_')[:4]
     tier = os.environ.get('VERIF_TIER_REPLAY', 'quick')
     b = bounds(tier)
     V = len(SC.KEYS[sc]) if oracle == 'req' else b['V']
